@@ -37,7 +37,7 @@ ALLEXC = 'All boxes contain'
 def _mask(rng, ny, nx, kind):
     m = np.zeros((ny, nx), bool)
     if kind == 'random':
-        dens = rng.choice([0.05, 0.15, 0.3, 0.5, 0.8])
+        dens = rng.choice([0.05, 0.1, 0.15, 0.3, 0.5])
         for y in range(ny):
             for x in range(nx):
                 m[y, x] = rng.random() < dens
@@ -71,7 +71,7 @@ def gen_box(rng, n):
     return rng.randint(1, n)
 
 
-PCHOICES = [0, 0, 10, 10, 12.5, 20, 25, 30, 50, 50, 75, 90, 100, 100]
+PCHOICES = [0, 10, 10, 12.5, 20, 25, 30, 50, 50, 50, 75, 75, 90, 100, 100]
 
 
 def gen_case(seed):
@@ -112,6 +112,45 @@ def gen_case(seed):
     fill = rng.choice([0.0, 0.0, -1.5, 7.25, 1000.0])
     return dict(seed=seed, data=data, box=box, mask=mask, cov=cov, p=p, est=rng.choice(['mean', 'median']),
                 fsize=fs, fthr=fthr, interp=interp, fill=fill, kind=kind, mk=mk, ck=ck)
+
+
+def directed_cases():
+    """Hand-written cases that sit on the boundaries named in the property's quantifier."""
+    def mk(data, box, mask=None, cov=None, p=10, est='mean', fsize=(1, 1), fthr=None, interp='zoom', fill=0.0,
+           kind='directed'):
+        data = np.asarray(data, float)
+        return dict(seed=None, data=data, box=box, mask=None if mask is None else np.asarray(mask, bool),
+                    cov=None if cov is None else np.asarray(cov, bool), p=p, est=est, fsize=fsize, fthr=fthr,
+                    interp=interp, fill=fill, kind=kind, mk='none' if mask is None else 'directed',
+                    ck='none' if cov is None else 'directed')
+    out = []
+    # exclude_percentile = 0 on a clean image: every box has no masked pixel and must be kept
+    out.append(mk(np.full((4, 4), 3.0), (2, 2), p=0, kind='const'))
+    out.append(mk(np.arange(36.).reshape(6, 6), (3, 3), p=0, est='median', interp='idw'))
+    # a box with exactly the allowed fraction masked (1 of 4 = 25 %) is kept, 2 of 4 is excluded
+    m = np.zeros((4, 4), bool)
+    m[0, 0] = True
+    m[2, 2] = m[2, 3] = True
+    out.append(mk(np.arange(16.).reshape(4, 4) * 0.5, (2, 2), mask=m, p=25))
+    # padded edge boxes: 3 x 3 image, box 2 -> core, extra row, extra column, single corner pixel
+    out.append(mk(np.arange(9.).reshape(3, 3), (2, 2), p=75))
+    out.append(mk(np.arange(35.).reshape(5, 7) * 0.25, (2, 3), p=50, fsize=(3, 3)))
+    # box == image and box larger than the image: one mesh cell
+    m = np.zeros((5, 4), bool)
+    m[1, 1] = True
+    out.append(mk(np.arange(20.).reshape(5, 4), (5, 4), mask=m, p=10))
+    out.append(mk(np.arange(20.).reshape(5, 4), (9, 9), p=10, interp='idw'))
+    # constant image with an excluded box: the IDW fill must not disturb the constant
+    for cval, shape, box in ((-3.75, (6, 6), (2, 2)), (-11.75, (8, 6), (2, 3)), (5.5, (9, 9), (3, 3))):
+        m = np.zeros(shape, bool)
+        m[:box[0], :box[1]] = True
+        m[-1, -1] = True
+        cv = np.zeros(shape, bool)
+        cv[0, -1] = True
+        out.append(mk(np.full(shape, cval), box, mask=m, cov=cv, p=10, kind='const', fill=7.25))
+        out.append(mk(np.full(shape, cval), box, mask=m, p=10, kind='const', interp='idw', est='median',
+                      fsize=(3, 3)))
+    return out
 
 
 def describe(c):
@@ -276,6 +315,10 @@ def oracle(c, o):
     if o['npix'].shape != (nmy, nmx) or o['b0'].shape != (nmy, nmx) or o['r0'].shape != (nmy, nmx):
         return [('Background2D:mesh-shape', f'mesh shape {o["npix"].shape} != {(nmy, nmx)}')]
     for (i, j), (n, m, var, g) in sorted(exp.items()):
+        if m is not None and not (np.isfinite(o['b0'][i, j]) and np.isfinite(o['r0'][i, j])):
+            fails.append(('Background2D:nonfinite-mesh', f'mesh cell [{i},{j}] of a kept box is not finite: '
+                          f'{o["b0"][i, j]}, {o["r0"][i, j]}'))
+            continue
         if int(o['npix'][i, j]) != n:
             fails.append(('Background2D:npixels_mesh', f'npixels_mesh[{i},{j}]={o["npix"][i, j]} but the box has {n} good pixels'))
         if bool(o['excl'][i, j]) != (m is None):
@@ -289,8 +332,10 @@ def oracle(c, o):
             s = Fraction(float(o['r0'][i, j]))
             if abs(s * s - var) * 2 ** prec > (4 * n + 40) * R * R or (var == 0 and s != 0):
                 fails.append(('Background2D:rms-mesh-value', f'background_rms_mesh[{i},{j}]={o["r0"][i, j]} but the box std is {math.sqrt(var)}'))
-    if not (np.all(np.isfinite(o['b0'])) and np.all(np.isfinite(o['r0']))):
-        fails.append(('Background2D:nonfinite-mesh', 'interpolated mesh contains non-finite values'))
+    if not all(np.all(np.isfinite(o[k])) for k in ('b0', 'r0', 'bF', 'rF')):
+        fails.append(('Background2D:nonfinite-mesh', 'background_mesh / background_rms_mesh contain non-finite values'))
+        fails += map_oracle(c, o['bF'], o['bmap'], 'background')
+        fails += map_oracle(c, o['rF'], o['rmap'], 'background_rms')
         return fails
     # median filter
     fy, fx = c['fsize']
@@ -310,7 +355,54 @@ def oracle(c, o):
                     fails.append(('Background2D:median-filter', f'{nameF}[{i},{j}]={o[nameF][i, j]} != {float(want)}'))
     fails += map_oracle(c, o['bF'], o['bmap'], 'background')
     fails += map_oracle(c, o['rF'], o['rmap'], 'background_rms')
+    fails += const_oracle(c, o)
     return fails
+
+
+def const_oracle(c, o):
+    """Property clause 'reproduce a constant image exactly (RMS 0)': if all pixels that are neither
+    masked, coverage-masked nor non-finite carry one value, meshes and maps equal it exactly."""
+    d = c['data']
+    bad = ~np.isfinite(d)
+    for m in (c['mask'], c['cov']):
+        if m is not None:
+            bad = bad | m
+    vals = np.unique(d[~bad])
+    if vals.size != 1 or o is None:
+        return []
+    cval = vals[0]
+    cov = c['cov'] if c['cov'] is not None else np.zeros(d.shape, bool)
+    ok = (np.all(o['b0'] == cval) and np.all(o['bF'] == cval) and np.all(o['bmap'][~cov] == cval)
+          and np.all(o['r0'] == 0) and np.all(o['rF'] == 0) and np.all(o['rmap'][~cov] == 0))
+    if ok:
+        return []
+    return [('Background2D:constant-image', f'constant image {float(cval)} is not reproduced exactly: '
+             f'max |background - c| = {float(np.max(np.abs(o["bmap"][~cov].astype(float) - float(cval)))) if (~cov).any() else 0.0:g}, '
+             f'max |mesh - c| = {float(np.max(np.abs(o["b0"].astype(float) - float(cval)))):g}')]
+
+
+def idw_outside_range(o):
+    ex = o['excl']
+    if not ex.any() or ex.all():
+        return False
+    return any(np.any(m[ex] < m[~ex].min()) or np.any(m[ex] > m[~ex].max()) for m in (o['b0'], o['r0']))
+
+
+def const_neighbour(c):
+    """V, neighbourhood of a mismatching case: the same geometry / masks / configuration with a constant
+    image.  Returns (case, impl, fails) for the first constant that violates the constant-image clause."""
+    for cval in (-3.75, 5.0, 0.25, -11.75, 13.5, 0.75, -60.25):
+        c2 = dict(c)
+        c2['data'] = np.full(c['data'].shape, cval, dtype=c['data'].dtype)
+        c2['kind'] = 'const'
+        try:
+            o2 = run_impl(c2)
+        except Exception:  # noqa: BLE001
+            continue
+        f = const_oracle(c2, o2)
+        if f:
+            return c2, o2, f
+    return None
 
 
 def map_oracle(c, mesh, m, name):
@@ -333,6 +425,177 @@ def map_oracle(c, mesh, m, name):
 
 
 # --------------------------------------------------------------------------
+# independent references (numpy / scipy / astropy only, no photutils code) for the numerics that the
+# Coq model treats as parameters: estimators, sigma clipping, the two upscaling interpolators
+# --------------------------------------------------------------------------
+def ref_estimate(name, v):
+    """Reference value of estimator class `name` on the 1-D float64 sample v (non-empty)."""
+    from astropy.stats import biweight_location, biweight_scale, mad_std
+    mean, med = float(np.mean(v)), float(np.median(v))
+    if name == 'MeanBackground':
+        return mean
+    if name == 'MedianBackground':
+        return med
+    if name in ('ModeEstimatorBackground', 'MMMBackground'):
+        return 3.0 * med - 2.0 * mean
+    if name == 'SExtractorBackground':
+        std = float(np.std(v))
+        if std == 0:
+            return mean
+        if abs(mean - med) / std >= 0.3:
+            return med
+        return 2.5 * med - 1.5 * mean
+    if name == 'BiweightLocationBackground':
+        return float(biweight_location(v, c=6.0))
+    if name == 'StdBackgroundRMS':
+        return float(np.std(v))
+    if name == 'MADStdBackgroundRMS':
+        return float(mad_std(v))
+    if name == 'BiweightScaleBackgroundRMS':
+        return float(biweight_scale(v, c=9.0))
+    raise KeyError(name)
+
+
+def ref_sextractor_margin(v):
+    """|mean-median|/std sits within rounding of the 0.3 switch: the branch is decided by rounding."""
+    std = float(np.std(v))
+    if std == 0:
+        return False
+    return abs(abs(float(np.mean(v)) - float(np.median(v))) / std - 0.3) < 1e-6
+
+
+def ref_clip(v, sclip):
+    if sclip is None or v.size == 0:
+        return v
+    from astropy.stats import SigmaClip
+    with warnings.catch_warnings():
+        warnings.simplefilter('ignore')
+        out = SigmaClip(sigma=sclip, maxiters=10)(v, masked=False, axis=None)
+    return out[np.isfinite(out)]
+
+
+def ref_zoom(mesh, shape, box, clip):
+    from scipy.ndimage import zoom
+    mesh = np.asarray(mesh)
+    if np.ptp(mesh) == 0:
+        return np.full(shape, mesh.min(), dtype=float)
+    r = zoom(mesh, box, order=3, mode='reflect', cval=0.0, grid_mode=True)[:shape[0], :shape[1]]
+    if clip:
+        r = np.clip(r, mesh.min(), mesh.max())
+    return r
+
+
+def ref_idw(mesh, excl, shape, box):
+    """Shepard IDW (power 1, 10 neighbours) from the centres of the kept meshes; None when more than 10 meshes
+    are kept (the choice among equidistant neighbours is then not determined)."""
+    mesh = np.asarray(mesh, float)
+    if np.ptp(mesh) == 0:
+        return np.full(shape, mesh.min(), dtype=float)
+    good = np.argwhere(~excl)
+    if len(good) > 10:
+        return None
+    cen = good * np.array(box) + (np.array(box) - 1) / 2.0
+    vals = mesh[~excl]
+    out = np.empty(shape)
+    for y in range(shape[0]):
+        for x in range(shape[1]):
+            d = np.hypot(cen[:, 0] - y, cen[:, 1] - x)
+            if np.any(d <= 1e-12):
+                out[y, x] = vals[np.argmin(d)]
+            else:
+                w = 1.0 / d
+                out[y, x] = np.dot(w, vals) / w.sum()
+    return out
+
+
+def interp_oracle(c, mesh, excl, m, name):
+    """The map equals the documented interpolation of the (filtered) mesh outside the coverage mask."""
+    d = c['data']
+    ny, nx = d.shape
+    box = (min(c['box'][0], ny), min(c['box'][1], nx))
+    if m.shape != d.shape:
+        return []
+    if c['interp'] == 'idw':
+        ref = ref_idw(mesh, excl, d.shape, box)
+    else:
+        ref = ref_zoom(mesh, d.shape, box, c['interp'] == 'zoom')
+    if ref is None:
+        # more than 10 kept meshes: only the identity at the mesh centres is determined
+        fails = []
+        if box[0] % 2 and box[1] % 2 and np.ptp(mesh) != 0:
+            for (i, j) in np.argwhere(~excl):
+                y, x = i * box[0] + (box[0] - 1) // 2, j * box[1] + (box[1] - 1) // 2
+                if y < ny and x < nx and not (c['cov'] is not None and c['cov'][y, x]) and m[y, x] != mesh[i, j]:
+                    fails.append(('Background2D:interpolator-reference',
+                                  f'{name}[{y},{x}] = {m[y, x]} at the centre of kept mesh [{i},{j}] = {mesh[i, j]} (IDW)'))
+                    break
+        return fails
+    cov = c['cov'] if c['cov'] is not None else np.zeros(d.shape, bool)
+    tol = (1e-4 if d.dtype == np.float32 else 1e-9) * (1.0 + float(np.max(np.abs(mesh))))
+    if not np.all(np.abs(m[~cov].astype(float) - ref[~cov]) <= tol):
+        k = np.argmax(np.where(cov, 0, np.abs(m.astype(float) - ref)))
+        y, x = divmod(int(k), nx)
+        return [('Background2D:interpolator-reference',
+                 f'{name}[{y},{x}] = {m[y, x]} but the {c["interp"]} interpolation of the mesh gives {ref[y, x]}')]
+    return []
+
+
+def mesh_reference(c, data, b1):
+    """Property clause 'each mesh value equals the chosen estimator applied to the sigma-clipped unmasked pixels
+    of its box' for ANY estimator class: references computed per block from slices of the image.
+    b1 = observables of the same configuration with filter_size=(1,1): (bkg mesh, rms mesh, npixels, excluded)."""
+    fails, stats = [], {'cells': 0, 'clip_tie_skipped': 0, 'sextractor_switch_skipped': 0}
+    bm, rm, npx, excl = b1
+    d = data.astype(float)
+    ny, nx = d.shape
+    by, bx = min(c['box'][0], ny), min(c['box'][1], nx)
+    bad = ~np.isfinite(d)
+    for m in (c['mask'], c['cov']):
+        if m is not None:
+            bad = bad | m
+    nmy, nmx = -(-ny // by), -(-nx // bx)
+    if npx.shape != (nmy, nmx):
+        return [('Background2D:mesh-shape', f'mesh shape {npx.shape} != {(nmy, nmx)}')], stats
+    thr = (1 - Fraction(c['p']) / 100) * (by * bx)
+    exact_thr = margin_ok(c)
+    f32 = data.dtype == np.float32
+    for i in range(nmy):
+        for j in range(nmx):
+            sl = (slice(i * by, (i + 1) * by), slice(j * bx, (j + 1) * bx))
+            v = ref_clip(d[sl][~bad[sl]], c['sclip'])
+            n = int(v.size)
+            stats['cells'] += 1
+            if int(npx[i, j]) != n:
+                if c['sclip'] is not None and abs(int(npx[i, j]) - n) <= 2 and int(npx[i, j]) <= int((~bad[sl]).sum()):
+                    stats['clip_tie_skipped'] += 1      # a value on the clipping boundary: decided by rounding
+                    continue
+                fails.append(('Background2D:npixels_mesh', f'npixels_mesh[{i},{j}]={npx[i, j]} but the box has {n} '
+                              f'unmasked pixels after sigma clipping'))
+                continue
+            if exact_thr:
+                exp_ex = n == 0 or n < thr
+                if bool(excl[i, j]) != exp_ex:
+                    fails.append(('Background2D:exclude_percentile-boundary',
+                                  f'box [{i},{j}] with {n} good pixels of {by * bx} (threshold {float(thr)}) is '
+                                  f'{"excluded" if excl[i, j] else "kept"}'))
+                    continue
+            if excl[i, j] or n == 0:
+                continue
+            if c['bkg'] == 'SExtractorBackground' and ref_sextractor_margin(v):
+                stats['sextractor_switch_skipped'] += 1
+            else:
+                rb = ref_estimate(c['bkg'], v)
+                if not abs(float(bm[i, j]) - rb) <= (2e-4 if f32 else 1e-9) * (1 + abs(rb) + float(np.max(np.abs(v)))):
+                    fails.append(('Background2D:mesh-value', f'background_mesh[{i},{j}]={bm[i, j]} != {c["bkg"]} of '
+                                  f'the clipped unmasked pixels of the box = {rb}'))
+            rr = ref_estimate(c['rms'], v)
+            if not abs(float(rm[i, j]) - rr) <= (2e-4 if f32 else 1e-9) * (1 + abs(rr) + float(np.max(np.abs(v)))):
+                fails.append(('Background2D:rms-mesh-value', f'background_rms_mesh[{i},{j}]={rm[i, j]} != {c["rms"]} '
+                              f'of the clipped unmasked pixels of the box = {rr}'))
+    return fails[:4], stats
+
+
+# --------------------------------------------------------------------------
 # support relations on every estimator / interpolator class (tested, not proved)
 # --------------------------------------------------------------------------
 BKG = ['MeanBackground', 'MedianBackground', 'ModeEstimatorBackground', 'MMMBackground', 'SExtractorBackground',
@@ -340,7 +603,8 @@ BKG = ['MeanBackground', 'MedianBackground', 'ModeEstimatorBackground', 'MMMBack
 RMS = ['StdBackgroundRMS', 'MADStdBackgroundRMS', 'BiweightScaleBackgroundRMS']
 
 
-def gen_rel(seed):
+def gen_rel(seed, combo=None):
+    """combo = index into BKG x RMS x {zoom, idw}: every class combination is visited in turn."""
     rng = random.Random(seed)
     c = gen_case(rng.randrange(1 << 30))
     c['seed'] = seed
@@ -358,9 +622,14 @@ def gen_rel(seed):
     c['bkg'] = rng.choice(BKG)
     c['rms'] = rng.choice(RMS)
     c['sclip'] = rng.choice([None, 3.0, 3.0, 2.0])
-    c['p'] = rng.choice([10, 25, 50, 90, 100])
+    c['p'] = rng.choice([0, 10, 25, 50, 50, 75, 90, 100, 100])
     if c['interp'] == 'zoom_noclip':
         c['interp'] = 'zoom'
+    if combo is not None:
+        c['bkg'] = BKG[combo % len(BKG)]
+        c['rms'] = RMS[(combo // len(BKG)) % len(RMS)]
+        c['interp'] = ('zoom', 'idw')[(combo // (len(BKG) * len(RMS))) % 2]
+    c['combo'] = combo
     return c
 
 
@@ -375,7 +644,9 @@ def _build_rel(c, data, fthr):
                            interpolator=interp)
 
 
-def _obs_rel(c, data, fthr=None):
+def _obs_rel(c, data, fthr=None, fsize=None):
+    if fsize is not None:
+        c = dict(c, fsize=fsize)
     with warnings.catch_warnings():
         warnings.simplefilter('ignore')
         try:
@@ -385,7 +656,8 @@ def _obs_rel(c, data, fthr=None):
                 return None
             raise
         return [np.array(b.background_mesh), np.array(b.background_rms_mesh), np.array(b.npixels_mesh),
-                np.array(b.background), np.array(b.background_rms)]
+                np.array(b.background), np.array(b.background_rms),
+                np.isnan(np.array(b.background_mesh_masked))]
 
 
 def _same(a, b):
@@ -422,13 +694,22 @@ def run_relations(c):
         fails.append(('Background2D:mask-blind', f'outputs depend on values under mask/coverage_mask ({cfgname})'))
     if base is None:
         return fails, None
-    bm, rm, npx, bmap, rmap = base
+    bm, rm, npx, bmap, rmap, excl = base
     eps = 1e-3 if data.dtype == np.float32 else 1e-9
     scale = max(1.0, float(np.max(np.abs(data))))
     # R2 shape, finiteness, fill, range
     for name, mesh, m in (('background', bm, bmap), ('background_rms', rm, rmap)):
         cc = dict(c)
         fails += map_oracle(cc, mesh, m, name)
+        fails += [(sig, msg + f' ({cfgname})') for sig, msg in interp_oracle(cc, mesh, excl, m, name)]
+    # R2b every mesh value = reference estimator of the reference-clipped unmasked pixels of its block
+    b1 = _obs_rel(c, data.copy(), fsize=(1, 1))
+    if b1 is None:
+        fails.append(('Background2D:raises', f'filter_size=(1,1) raises although filter_size={c["fsize"]} does not'))
+    else:
+        mf, mstats = mesh_reference(c, data, (b1[0], b1[1], b1[2], b1[5]))
+        fails += [(sig, msg + f' ({cfgname})') for sig, msg in mf]
+        c['_mstats'] = mstats
     if np.any(rm < 0) or np.any(rmap[~cov] < 0):
         fails.append(('Background2D:negative-rms', f'negative RMS ({cfgname})'))
     # R3 constant image reproduced exactly, RMS 0
@@ -476,8 +757,8 @@ def worker_main():
             out['k'][str(s)] = None if o is None else {k: (np.asarray(v, float).tolist()) for k, v in o.items()}
         except Exception as e:  # noqa: BLE001
             out['k'][str(s)] = {'error': repr(e)}
-    for s in rel_seeds:
-        c = gen_rel(s)
+    for s, combo in rel_seeds:
+        c = gen_rel(s, combo)
         try:
             fails, base = run_relations(c)
             out['rel'][str(s)] = {'fails': fails, 'base': None if base is None else [np.asarray(v, float).tolist() for v in base]}
@@ -512,8 +793,10 @@ def run(ctx):
         '75,90,100}; filter sizes 1,3,(1,3),(3,1),(5,3),5 with and without filter_threshold; Zoom(clip) / '
         'Zoom(no clip) / IDW interpolators; Mean/Median + Std estimators, sigma_clip=None. A case is non-trivial '
         'when at least one box is kept and one pixel is masked, non-finite, padded or excluded; distinct = '
-        'distinct full description. Relations (support): every estimator x RMS x interpolator class, with and '
-        'without sigma clipping, images up to 24x24; all cases repeated in a subprocess with bottleneck disabled.')
+        'distinct full description. Relations (support): the 6 x 3 x 2 combinations of background estimator x RMS '
+        'estimator x interpolator class are visited in turn (relation_combos), with and without sigma clipping, '
+        'exclude_percentile in {0,10,25,50,90,100}, images up to 24x24; cases repeated in a subprocess with '
+        'bottleneck disabled. The model mirrors the REPAIRED code (fixes/C11-1, C11-2).')
     ctx.assumptions += [
         'edge_method="crop" (deprecated) and astropy units are not modelled',
         'sigma clipping, the estimators other than mean/median/std, Shepard IDW and scipy.ndimage.zoom are section '
@@ -522,24 +805,36 @@ def run(ctx):
         'integer input images are excluded (documented integer-output rounding, see C15)',
         'float threshold (1 - p/100.0) * box_npixels: cases are compared only when the float separates the integers '
         'like the exact rational does (decision-margin rule); skipped cases are counted',
+        'background_mesh is always read before background_rms_mesh (the opposite order with filter_threshold set '
+        'raises TypeError: DESIGN.md section-6 defect 8, owned by C09, fixes/C09-1)',
+        'the IDW values of excluded meshes and the zoom / IDW upscaling are taken from the implementation (oracle '
+        'inputs of the model); the model checks them only through the clip to the range of the kept meshes, the '
+        'ptp == 0 branch, the clip to the mesh range and the coverage fill',
     ]
     ctx.cov['partial_clauses'] = [
-        'shift/scale equivariance: proved for the pipeline under the hypothesis that estimator, RMS estimator, sigma '
-        'clip, IDW fill, window median and zoom are themselves equivariant (relational parametricity theorem); '
-        'tested on every estimator/interpolator class',
-        'constant image reproduced exactly: proved under the hypotheses est(const)=const, rms(const)=0, clip returns '
-        'a sub-multiset, IDW fill and window median preserve constants',
-        'finite everywhere: in the model every filled mesh / map value is a rational; that IDW and zoom return '
-        'finite floats is tested only',
-        'mesh value = estimator(sigma-clipped unmasked box pixels): bookkeeping proved for any estimator/clip; '
-        'numerically tied for mean, median, std with sigma_clip=None only',
+        'shift_scale_equivariant_partial: proved for the whole pipeline (incl. filter_threshold) under the premises '
+        'that sigma clip commutes with v -> k*v+c, the background estimator is equivariant, the RMS estimator scales '
+        'by k and ignores c (on non-empty samples), and the Shepard fill, the window median and the upscaling '
+        '(zoom / IDW) are equivariant under v -> a*v+b, a>0; premises shown satisfiable (mean, exact median); '
+        'tested on every estimator x RMS x interpolator class',
+        'constant_image_exact: premises est(const sample)=const, rms(const sample)=0, clip only removes values, '
+        'median(const window)=const; discharged in Coq for Mean/Median/Std/sigma_clip=None/window median '
+        '(constant_image_exact_mean_median_std), tested for the other estimator classes',
+        'finite_everywhere_partial: the model proves the preconditions (a kept box exists whenever maps are '
+        'returned; estimators only see non-empty samples of finite unmasked pixels; every cell/pixel defined); that '
+        'the estimators, Shepard IDW, nanmedian and scipy zoom return finite floats on such input is tested only',
+        'mesh value = estimator(sigma-clipped unmasked box pixels): proved for any estimator/clip as parameters of '
+        'the model; numerically tied for mean, median, std with sigma_clip=None only (sigma clipping itself and the '
+        'other estimators are exercised through the relations)',
+        'within_mesh_range is full in the model (the clip of BkgZoomInterpolator is modelled); that numpy.clip '
+        'implements it is tied by stage C of the correspondence',
     ]
     n = 420 if quick else 4000
-    nrel = 120 if quick else 1200
+    nrel = 144 if quick else 1260
     seeds = [ctx.rng.randrange(1 << 40) for _ in range(n)]
     cases, impl, terms, idx = [], [], [], []
-    for s in seeds:
-        c = gen_case(s)
+    for c in directed_cases() + [gen_case(s) for s in seeds]:
+        ctx.stat('generator', 'directed' if c['seed'] is None else 'random')
         if not margin_ok(c):
             ctx.stat('generator', 'skipped_float_threshold_margin')
             continue
@@ -584,6 +879,9 @@ def run(ctx):
         if o is not None:
             for sig, msg in map_oracle(c, o['bF'], o['bmap'], 'background') + map_oracle(c, o['rF'], o['rmap'], 'background_rms'):
                 ctx.violation(sig, msg, {'case': describe(c)})
+            for sig, msg in (interp_oracle(c, o['bF'], o['excl'], o['bmap'], 'background') +
+                             interp_oracle(c, o['rF'], o['excl'], o['rmap'], 'background_rms')):
+                ctx.violation(sig, msg, {'case': describe(c)}, found_input=False)
             if o['bmed'] != float(np.median(o['bF'])):
                 ctx.violation('Background2D:background_median', 'background_median != median(background_mesh)',
                               {'case': describe(c)})
@@ -601,18 +899,30 @@ def run(ctx):
                 detail['model_stage_A'] = ctx.coq_eval_term(['C11_Model'], f'model_out {terms[i]}')[:4000]
             except Exception as e:  # noqa: BLE001
                 detail['model_stage_A'] = 'n/a: ' + str(e)[:200]
+        nb = None if fails else const_neighbour(c)
         if fails:
             for sig, msg in fails[:3]:
                 ctx.violation(sig, msg, detail)
+        elif nb is not None:
+            c2, o2, f2 = nb
+            ctx.violation(f2[0][0], f2[0][1] + ' (found in the neighbourhood of a model/implementation mismatch: same '
+                          'geometry, masks and configuration, constant data)',
+                          {'case': describe(c2), 'impl': {k: np.asarray(v).tolist() for k, v in o2.items()},
+                           'mismatching_case': describe(c)})
+        elif o is not None and idw_outside_range(o):
+            ctx.violation('Background2D:idw-fill-outside-range',
+                          'the IDW value of an excluded mesh lies outside the range of the kept meshes by round-off '
+                          '(repaired by fixes/C11-2; root cause of Background2D:constant-image, the property itself '
+                          'holds on this input)', detail, found_input=False)
         else:
             ctx.violation('correspondence:C11_Model.check_case', 'model and implementation disagree but the '
                           'independent oracle accepts the output', detail, found_input=False)
 
     # ---- support relations, in process (bottleneck enabled) ----
-    rel_seeds = [ctx.rng.randrange(1 << 40) for _ in range(nrel)]
+    rel_seeds = [(ctx.rng.randrange(1 << 40), k) for k in range(nrel)]
     rel_base = {}
-    for s in rel_seeds:
-        c = gen_rel(s)
+    for s, combo in rel_seeds:
+        c = gen_rel(s, combo)
         try:
             fails, base = run_relations(c)
         except Exception as e:  # noqa: BLE001
@@ -622,16 +932,26 @@ def run(ctx):
         ctx.stat('relations', f"{c['rms']}")
         ctx.stat('relations', 'interp=' + c['interp'])
         ctx.stat('relations', 'sigma_clip=' + str(c['sclip']))
+        ctx.stat('relation_combos', f"{c['bkg']}/{c['rms']}/{c['interp']}")
+        rny, rnx = c['data'].shape
+        rby, rbx = min(c['box'][0], rny), min(c['box'][1], rnx)
+        ctx.stat('relations', 'geometry=' + ('box>=image' if rby == rny and rbx == rnx else
+                                             ('divides' if rny % rby == 0 and rnx % rbx == 0 else 'padded')))
+        ctx.stat('relations', 'result=' + ('all_excluded_error' if base is None else 'maps'))
         ctx.count_case(rel_describe(c), base is not None)
         for sig, msg in fails:
-            ctx.violation(sig, msg, {'case': rel_describe(c), 'seed': s})
-    for name in ('mask_blind_bitexact', 'shape_finite_fill_range', 'constant_image_exact', 'scale_pow2_bitexact',
+            ctx.violation(sig, msg, {'case': rel_describe(c), 'seed': s, 'combo': combo},
+                          found_input=(sig != 'Background2D:interpolator-reference'))
+        for k, v in c.get('_mstats', {}).items():
+            ctx.stat('mesh_reference', k, v)
+    for name in ('mesh_equals_reference_estimator_of_reference_clipped_block', 'map_equals_reference_interpolation',
+                 'mask_blind_bitexact', 'shape_finite_fill_range', 'constant_image_exact', 'scale_pow2_bitexact',
                  'scale_by_3_tolerance', 'shift_integer_tolerance'):
         ctx.support(name, nrel)
 
     # ---- everything again with bottleneck disabled ----
-    kseeds = [c['seed'] for c in cases][: (150 if quick else 1200)]
-    rsub = rel_seeds[: (60 if quick else 600)]
+    kseeds = [c['seed'] for c in cases if c['seed'] is not None][: (150 if quick else 1200)]
+    rsub = rel_seeds[: (72 if quick else 612)]
     w = run_worker(kseeds, rsub)
     if not w['bn_disabled']:
         ctx.violation('harness-error:bottleneck-still-enabled', 'worker could not disable bottleneck', {}, found_input=False)
@@ -648,14 +968,16 @@ def run(ctx):
             ctx.violation('Background2D:bottleneck-dispatch', 'results differ with and without bottleneck',
                           {'case': describe(c), 'without_bottleneck': wo})
     ctx.support('without_bottleneck_same_observables', len(kseeds))
-    for s in rsub:
+    for s, combo in rsub:
         r = w['rel'][str(s)]
-        c = gen_rel(s)
+        c = gen_rel(s, combo)
         if 'error' in r:
-            ctx.violation('Background2D:raises-without-bottleneck', r['error'][:300], {'case': rel_describe(c), 'seed': s})
+            ctx.violation('Background2D:raises-without-bottleneck', r['error'][:300],
+                          {'case': rel_describe(c), 'seed': s, 'combo': combo})
             continue
         for sig, msg in r['fails']:
-            ctx.violation(sig + ':no-bottleneck', msg, {'case': rel_describe(c), 'seed': s, 'bottleneck': False})
+            ctx.violation(sig, msg + ' [bottleneck disabled]', {'case': rel_describe(c), 'seed': s, 'combo': combo,
+                                                                'bottleneck': False})
         b = rel_base[s]
         if (b is None) != (r['base'] is None) or (b is not None and not (
                 np.array_equal(b[2], np.asarray(r['base'][2])) and
@@ -663,7 +985,7 @@ def run(ctx):
             # sigma clipping decisions are discontinuous: only report when no clipping is involved
             if c['sclip'] is None and c['bkg'] != 'SExtractorBackground':
                 ctx.violation('Background2D:bottleneck-dispatch', 'results differ with and without bottleneck',
-                              {'case': rel_describe(c), 'seed': s})
+                              {'case': rel_describe(c), 'seed': s, 'combo': combo})
             else:
                 ctx.stat('relations', 'bn_vs_numpy_differs_with_discontinuous_estimator')
     ctx.support('relations_without_bottleneck', len(rsub))
@@ -673,7 +995,7 @@ def replay(obj):
     r = obj['replay']
     d = r.get('case', r)
     if d.get('relation'):
-        c = gen_rel(r['seed'])
+        c = gen_rel(r['seed'], r.get('combo'))
         if r.get('bottleneck') is False:
             print('(this relation failed with bottleneck disabled; replaying with the default dispatch)')
         fails, _ = run_relations(c)
